@@ -33,12 +33,34 @@ func main() {
 	tags := flag.String("tags", "", "build tags")
 	goarch := flag.String("goarch", "", "GOARCH override")
 	list := flag.Bool("list", false, "list properties")
+	rulesMD := flag.Bool("rules", false, "print the rule catalogue (markdown)")
 	dump := flag.Bool("dump", false, "print every obligation")
 	wb := flag.Bool("write-baselines", false, "(maintenance) rewrite /verif/baselines for this property from the current tree")
 	noEvidence := flag.Bool("no-evidence", false, "do not write evidence (used by the mutant self-test); prints findings only")
 	flag.Parse()
 	writeBaselines = *wb
 	verifDirGlobal = *verif
+	if *rulesMD {
+		var ids []string
+		for k := range registry {
+			ids = append(ids, k)
+		}
+		sort.Strings(ids)
+		for _, k := range ids {
+			m := registry[k].Meta
+			fmt.Printf("**%s - %s**\n\n", k, m.Title)
+			var rs []string
+			for r := range m.Rules {
+				rs = append(rs, r)
+			}
+			sort.Strings(rs)
+			for _, r := range rs {
+				fmt.Printf("* `%s` %s\n", r, m.Rules[r])
+			}
+			fmt.Printf("\nDoes not decide: %s\n\n", m.DoesNotDecide)
+		}
+		return
+	}
 	if *list {
 		var ids []string
 		for k := range registry {
